@@ -5,7 +5,7 @@ package methods
 // Contracts for package methods (comment-only; read by /verif/govc).
 
 //@ func IsSafelisted
-//@   props C02 C03 C04 C05 C09 C10 C11 C15 C16 C17 C18
+//@   props C04 C17 C18
 //@   pure
 //@   allocs <= 0
 
